@@ -229,6 +229,21 @@ impl ResumableSessions {
         self.records.retain(|r| r.fab_idx != fab_idx);
     }
 
+    /// Keep only the records whose fabric index satisfies `keep`.
+    ///
+    /// Used when the cache is loaded at startup, to drop the records of
+    /// fabrics that no longer exist. Returns `true` if any record was dropped.
+    pub fn retain_fabrics<F>(&mut self, mut keep: F) -> bool
+    where
+        F: FnMut(NonZeroU8) -> bool,
+    {
+        let len = self.records.len();
+
+        self.records.retain(|r| keep(r.fab_idx));
+
+        self.records.len() != len
+    }
+
     /// Drop the record identified by peer identity, if any.
     pub fn remove_by_peer(&mut self, fab_idx: NonZeroU8, peer_nodeid: u64) {
         self.records
